@@ -56,3 +56,98 @@ Proof.
     inversion H; subst; clear H.
     split; [reflexivity | intros p N; apply KEEP; exact N].
 Qed.
+
+(* ---- across file systems (IOLinks.serialize_to_lx): the text lands where the chain of links at the destination ends *)
+Lemma lresolve_not_link : forall fuel fs p r, lresolve fuel fs p = Some r -> forall q, lget fs r <> Some (ELink q).
+Proof.
+  induction fuel as [|k IH]; intros fs p r H q; cbn [lresolve] in H.
+  - destruct (lget fs p) as [[c|t]|] eqn:E; try discriminate; inversion H; subst; rewrite E; discriminate.
+  - destruct (lget fs p) as [[c|t]|] eqn:E; try (inversion H; subst; rewrite E; discriminate).
+    exact (IH fs t r H q).
+Qed.
+
+(* reading the named path in any tree that agrees with the old one off the end of the chain and holds the text there *)
+Lemma lread_through : forall fuel fs fs' p r c,
+  lresolve fuel fs p = Some r ->
+  (forall q t, lget fs q = Some (ELink t) -> q <> r -> lget fs' q = Some (ELink t)) -> lget fs' r = Some (EFile c) ->
+  lread fuel fs' p = Some c.
+Proof.
+  induction fuel as [|k IH]; intros fs fs' p r c H K G.
+  - cbn [lresolve] in H. destruct (lget fs p) as [[c0|t]|] eqn:E; try discriminate; inversion H; subst;
+      cbn [lread]; rewrite G; reflexivity.
+  - cbn [lresolve] in H. destruct (lget fs p) as [[c0|t]|] eqn:E.
+    + inversion H; subst. cbn [lread]. rewrite G. reflexivity.
+    + assert (NP : p <> r).
+      { intros ->. exact (lresolve_not_link _ _ _ _ H t E). }
+      cbn [lread]. rewrite (K p t E NP). exact (IH fs fs' t r c H K G).
+    + inversion H; subst. cbn [lread]. rewrite G. reflexivity.
+Qed.
+
+Theorem serialize_xdev_exact : forall fuel fs name tmp cs path r fs' ok,
+  dest_path name = Some path -> lget fs tmp = None ->
+  lresolve fuel (lset tmp (EFile (cat cs)) fs) path = Some r -> r <> tmp ->
+  serialize_to_lx fuel fs name tmp cs NoFault = (fs', ok) ->
+  ok = true /\ lget fs' r = Some (EFile (cat cs)) /\ lread fuel fs' path = Some (cat cs) /\
+  (forall p, p <> r -> lget fs' p = lget fs p).
+Proof.
+  intros fuel fs name tmp cs path r fs' ok D FT R NT H. unfold serialize_to_lx in H. rewrite D in H.
+  rewrite write_chunks_all in H. cbn [negb append] in H. rewrite R in H. inversion H; subst; clear H.
+  set (fs2 := lset tmp (EFile (cat cs)) fs) in *.
+  assert (G : lget (lset r (EFile (cat cs)) (lremove tmp fs2)) r = Some (EFile (cat cs)))
+    by (unfold lget, lset; apply lookup_dset_same).
+  assert (K2 : forall p, p <> r -> lget (lset r (EFile (cat cs)) (lremove tmp fs2)) p = lget fs p).
+  { intros p NP. unfold lget, lset, lremove. rewrite lookup_dset_other by congruence.
+    destruct (String.eqb p tmp) eqn:E.
+    - apply String.eqb_eq in E. subst p. rewrite lookup_filter_eq. symmetry. exact FT.
+    - apply String.eqb_neq in E. rewrite lookup_filter_ne by exact E.
+      unfold fs2, lset. rewrite lookup_dset_other by congruence. reflexivity. }
+  split; [reflexivity|]. split; [exact G|]. split; [|exact K2].
+  apply (lread_through fuel fs2 _ path r (cat cs) R); [|exact G].
+  intros q t L NQ. unfold lget, lset, lremove. rewrite lookup_dset_other by congruence.
+  destruct (String.eqb q tmp) eqn:E.
+  - (* the temp entry is a file, not a link *)
+    apply String.eqb_eq in E. subst q. unfold fs2, lget, lset in L. rewrite lookup_dset_same in L. discriminate.
+  - apply String.eqb_neq in E. rewrite lookup_filter_ne by exact E. exact L.
+Qed.
+
+(* the links at and behind the destination stay links; the file at the end of the chain is the one entry that changes *)
+Corollary serialize_xdev_link_kept : forall fuel fs name tmp cs path q r fs' ok,
+  dest_path name = Some path -> lget fs tmp = None ->
+  lget fs path = Some (ELink q) ->
+  lresolve fuel (lset tmp (EFile (cat cs)) fs) path = Some r -> r <> tmp ->
+  serialize_to_lx fuel fs name tmp cs NoFault = (fs', ok) ->
+  lget fs' path = Some (ELink q) /\ lread fuel fs' path = Some (cat cs).
+Proof.
+  intros fuel fs name tmp cs path q r fs' ok D FT L R NT H.
+  destruct (serialize_xdev_exact _ _ _ _ _ _ _ _ _ D FT R NT H) as [_ [G [RD K]]]. split; [|exact RD].
+  destruct (String.eqb path r) eqn:E.
+  - apply String.eqb_eq in E. subst r. exfalso.
+    assert (PT : path <> tmp) by exact NT.
+    assert (L2 : lget (lset tmp (EFile (cat cs)) fs) path = Some (ELink q))
+      by (unfold lget, lset; rewrite lookup_dset_other by congruence; exact L).
+    exact (lresolve_not_link _ _ _ _ R q L2).
+  - apply String.eqb_neq in E. rewrite (K path E). exact L.
+Qed.
+
+(* failure at a write call, at the move, or a chain of links that does not end (ELOOP): every entry but the temp one
+   is as before *)
+Theorem serialize_xdev_atomic : forall fuel fs name tmp cs path f fs' ok,
+  dest_path name = Some path ->
+  (f = FaultAtMove \/ (exists k, f = FaultAtWrite k /\ k < length cs) \/
+   (f = NoFault /\ lresolve fuel (lset tmp (EFile (cat cs)) fs) path = None)) ->
+  serialize_to_lx fuel fs name tmp cs f = (fs', ok) ->
+  ok = false /\ (forall p, p <> tmp -> lget fs' p = lget fs p).
+Proof.
+  intros fuel fs name tmp cs path f fs' ok D F H. unfold serialize_to_lx in H. rewrite D in H.
+  assert (KEEP : forall content p, p <> tmp -> lget (lset tmp (EFile content) fs) p = lget fs p).
+  { intros content p N. unfold lget, lset. rewrite lookup_dset_other by congruence. reflexivity. }
+  destruct F as [->|[[k [-> L]]|[-> R]]].
+  - rewrite write_chunks_all in H. cbn [negb] in H. inversion H; subst; clear H.
+    split; [reflexivity | intros p N; apply KEEP; exact N].
+  - pose proof (write_chunks_fault cs "" k L) as W.
+    destruct (write_chunks cs "" (Some k)) as [content b]. cbn [snd] in W. subst b. cbn [negb] in H.
+    inversion H; subst; clear H.
+    split; [reflexivity | intros p N; apply KEEP; exact N].
+  - rewrite write_chunks_all in H. cbn [negb append] in H. rewrite R in H. inversion H; subst; clear H.
+    split; [reflexivity | intros p N; apply KEEP; exact N].
+Qed.
